@@ -97,3 +97,16 @@ pub fn generate(sink: &mut Sink, rng: &mut Rng, n: u64) {
     // (a) generated programs under random schedules
     lang::generate(sink, rng, n, true, Some("o.c17"));
 }
+
+/// C16: the hand-written programs (many stdlib functions) + generated programs through `o.c16`.
+pub fn generate_c16(sink: &mut Sink, rng: &mut Rng, n: u64) {
+    let events = [lang::gen_event(rng), parse_value("{ k:61 i:1 k:617272 [ i:1 i:2 ] k:6e i:2 k:6f626a { k:78 i:1 } k:73 b:3132 k:74 t }").unwrap()];
+    let meta = parse_value("{ k:6d { k:6b i:7 } }").unwrap();
+    for (_tag, src) in PROGRAMS {
+        for event in &events {
+            sink.count("c16:handwritten_programs_x_events");
+            sink.emit("o.c16", &[hex(src.as_bytes()), show_value(event), show_value(&meta), "-".to_string()]);
+        }
+    }
+    lang::generate(sink, rng, n, true, Some("o.c16"));
+}
